@@ -162,7 +162,7 @@ SrvRecvCreds(sym) ==
      ELSE IF sym.st # "authenticating" \/ sym.id # "right" \/ sym.scheme \notin cfg.schemes
           THEN Fail(<<i>>)
      ELSE \E ao \in AuthOutcomes(sym) :
-       LET a == [Ev("auth") EXCEPT !.scheme = sym.scheme, !.ident = sym.ident,
+       LET a == [Ev("auth") EXCEPT !.scheme = IF sym.cred = "" THEN "" ELSE sym.scheme, !.ident = sym.ident,
                                    !.cred = sym.cred, !.res = ao, !.tenc = tenc] IN
        CASE ao = "error" -> BareErr(<<i, a>>, FALSE)
          [] KnownRole(ao) ->
@@ -187,7 +187,7 @@ SrvRecvCreds(sym) ==
 PostData(kind) ==
   /\ pc = "estab" /\ ~fed /\ kind \in DataKinds
   /\ fed' = TRUE
-  /\ obs' = obs \o <<Stamp(In(kind)), [Ev("deliver") EXCEPT !.kind = kind]>>
+  /\ obs' = obs \o <<Stamp(In(kind)), [Ev("deliver") EXCEPT !.kind = kind]>> \o StateEv(sState)
   /\ UNCHANGED <<cfg, pc, sState, open, tenc, rt>>
 
 (* end of an established session.  chan: the application calls FinishSession *)
